@@ -108,7 +108,7 @@ Spec == Init /\ [][Next]_vars
 \* "Arbitrary, malformed or truncated parameter files ... either parse into an internally consistent
 \* object or are rejected": the incremental machine and the fold used for trace validation agree on
 \* verdict and variables for every input, whether or not the vLast line ends with a newline
-FoldAgrees == vPh = "done" => \A nl \in BOOLEAN : LET x == TestRun(vHist, nl) IN x.verdict = vRes /\ x.st.vars = vSt.vars
+FoldAgrees == vPh = "done" => \A nl \in BOOLEAN, crlf \in BOOLEAN : LET x == TestRun(vHist, nl, crlf) IN x.verdict = vRes /\ x.st.vars = vSt.vars
 \* "vectorised keys are stored at the index given" (and nothing else changes)
 StoredAtIndex == vLast.kind = "AssignIndexed" =>
                    /\ vSt.vars[vLast.var][vLast.idx] = vLast.val
